@@ -8,7 +8,7 @@ use std::sync::Arc;
 use std::sync::atomic::{AtomicBool, AtomicUsize, Ordering};
 
 use futures::FutureExt;
-use narwhal_util::pool::{Pool, PoolBuffer};
+use narwhal_util::pool::{BucketedPool, Pool, PoolBuffer};
 
 use crate::rng::Rng;
 
@@ -99,6 +99,64 @@ pub fn run_suite(seed: u64, cases: usize) -> String {
       Ok((n, extra)) if n == cap && !extra => {},
       Ok((n, extra)) => fails.push((case, format!("C19: [pool-capacity-drift] after the stress {n} of {cap} buffers could be acquired at once (one more: {extra})"))),
       Err(_) => fails.push((case, format!("C19: [pool-panic] acquiring the capacity again panicked (a permit without a buffer; capacity {cap})"))),
+    }
+  }
+  // the bucketed pool under contention: a request within the largest size is always served (the caller waits while the pool
+  // is empty), whatever the other threads do between its availability check and its acquisition
+  for case in 0..cases {
+    // one bucket of one buffer, or two buckets (64 and 128 bytes) of one buffer each
+    let two = (seed as usize + case) % 2 == 1;
+    let bp = Arc::new(if two { BucketedPool::new_with_memory_budget(64, 128, 256, 1, 2, 0.5) } else { BucketedPool::new_with_memory_budget(64, 64, 64, 1, 2, 0.5) });
+    let largest = if two { 128usize } else { 64 };
+    let threads = 4usize;
+    let refused = Arc::new(AtomicUsize::new(0));
+    let small = Arc::new(AtomicUsize::new(0));
+    let panics = Arc::new(AtomicUsize::new(0));
+    let mut hs = Vec::new();
+    for th in 0..threads {
+      let (bp, refused, small, panics) = (bp.clone(), refused.clone(), small.clone(), panics.clone());
+      let mut rng = Rng::new(seed ^ 0xb0c4 ^ ((case as u64) << 16) ^ th as u64);
+      hs.push(std::thread::spawn(move || {
+        let r = std::panic::catch_unwind(std::panic::AssertUnwindSafe(|| {
+          for _ in 0..20_000u32 {
+            let req = if two && rng.chance(1, 2) { rng.range(65, 128) as usize } else { rng.range(1, 64) as usize };
+            match futures::executor::block_on(bp.acquire_buffer(req)) {
+              Some(mut b) => {
+                if b.as_mut_slice().len() < req {
+                  small.fetch_add(1, Ordering::SeqCst);
+                }
+                b.as_mut_slice()[0] = th as u8;
+                drop(b);
+              },
+              None => {
+                refused.fetch_add(1, Ordering::SeqCst);
+              },
+            }
+          }
+        }));
+        if r.is_err() {
+          panics.fetch_add(1, Ordering::SeqCst);
+        }
+      }));
+    }
+    for h in hs {
+      let _ = h.join();
+    }
+    let (refused, small, panics) = (refused.load(Ordering::SeqCst), small.load(Ordering::SeqCst), panics.load(Ordering::SeqCst));
+    let back = bp.total_available_count();
+    let total = if two { 2 } else { 1 };
+    let _ = writeln!(t, "case b{case} buckets={} refused={refused} small={small} panics={panics} back={back}", if two { "1x64 1x128" } else { "1x64" });
+    if refused > 0 {
+      fails.push((case, format!("C19: [bucketed-refused] BucketedPool::acquire_buffer returned None {refused} times for requests within its largest buffer size ({largest} bytes) while {threads} threads were acquiring and dropping buffers")));
+    }
+    if small > 0 {
+      fails.push((case, format!("C19: [bucketed-small] a buffer smaller than requested was handed out {small} times")));
+    }
+    if panics > 0 {
+      fails.push((case, "C19: [pool-panic] BucketedPool::acquire_buffer panicked under concurrent use".to_string()));
+    }
+    if back != total {
+      fails.push((case, format!("C19: [pool-not-all-back] bucketed pool: {back} of {total} buffers available with every holder gone")));
     }
   }
   for (case, f) in &fails {
